@@ -41,4 +41,40 @@ theorem C13_cli_outcome (outcome : Except ErrClass Nat) :
   | ok n => exact ⟨rfl, rfl, rfl⟩
   | error t => exact ⟨rfl, by simp [cliRun], rfl⟩
 
+/-! ### command-line dialect selection (decision logic stated outright) -/
+
+/-- `--out-format input`: the output is written in exactly the dialect the input is read in -/
+theorem C13_cli_out_format_input (d : List Char) (p : Option CliPolicy) :
+    (cliDialects d p .input).outDelim = (cliDialects d p .input).inDelim ∧
+    (cliDialects d p .input).outPolicy = (cliDialects d p .input).inPolicy := by
+  simp [cliDialects, cliNamedFormat]
+
+/-- `--out-format csv` / `tsv`: comma + quoted / TAB + simple, whatever the input dialect -/
+theorem C13_cli_out_format_named (d : List Char) (p : Option CliPolicy) :
+    ((cliDialects d p .csv).outDelim = [','] ∧ (cliDialects d p .csv).outPolicy = .quoted) ∧
+    ((cliDialects d p .tsv).outDelim = ['\t'] ∧ (cliDialects d p .tsv).outPolicy = .simple) ∧
+    (cliDialects d p .csv).inDelim = (cliDialects d p .input).inDelim ∧ (cliDialects d p .csv).inPolicy = (cliDialects d p .input).inPolicy := by
+  simp [cliDialects, cliNamedFormat]
+
+/-- an explicit `--policy` wins; otherwise `,` and `;` are read quoted, a single space as whitespace-separated, anything else simple -/
+theorem C13_cli_default_policy (d : List Char) (fmt : OutFormat) :
+    (∀ p, (cliDialects d (some p) fmt).inPolicy = p) ∧
+    (cliNormalizeDelim d = [','] ∨ cliNormalizeDelim d = [';'] → (cliDialects d none fmt).inPolicy = .quoted) ∧
+    (cliNormalizeDelim d = [' '] → (cliDialects d none fmt).inPolicy = .whitespace) ∧
+    (cliNormalizeDelim d ≠ [','] → cliNormalizeDelim d ≠ [';'] → cliNormalizeDelim d ≠ [' '] → (cliDialects d none fmt).inPolicy = .simple) := by
+  refine ⟨?_, ?_, ?_, ?_⟩
+  · intro p; cases fmt <;> simp [cliDialects, cliNamedFormat]
+  · intro h; cases fmt <;> rcases h with h | h <;> simp [cliDialects, cliNamedFormat, cliDefaultPolicy, h]
+  · intro h; cases fmt <;> simp [cliDialects, cliNamedFormat, cliDefaultPolicy, h]
+  · intro h1 h2 h3; cases fmt <;> simp [cliDialects, cliNamedFormat, cliDefaultPolicy, h1, h2, h3]
+
+/-- `TAB` and `\t` on the command line both mean the tab character; every other delimiter text is taken literally -/
+theorem C13_cli_delim_spelling (d : List Char) :
+    cliNormalizeDelim "TAB".toList = ['\t'] ∧ cliNormalizeDelim ['\\', 't'] = ['\t'] ∧
+    (d ≠ "TAB".toList → d ≠ ['\\', 't'] → cliNormalizeDelim d = d) := by
+  refine ⟨by decide, by decide, ?_⟩
+  intro h1 h2
+  unfold cliNormalizeDelim
+  rw [if_neg h1, if_neg h2]
+
 end Rbql
